@@ -311,10 +311,10 @@ func trueImpliesNonEmpty(g *ssa.Function, prm *ssa.Parameter) bool {
 	okAll, n := true, 0
 	eng.EachInstr(g, func(in ssa.Instruction) {
 		ret, ok := in.(*ssa.Return)
-		if !ok || len(ret.Results) != 1 {
+		if !ok || len(eng.ReturnResults(ret)) != 1 {
 			return
 		}
-		if b, isC := eng.ConstBool(ret.Results[0]); isC && !b {
+		if b, isC := eng.ConstBool(eng.ReturnResults(ret)[0]); isC && !b {
 			return
 		}
 		n++
